@@ -14,7 +14,7 @@ def check(tier, seed, replay=None):
     meta = {}
     if replay:
         c = json.load(open(replay))
-        cases = [{k: c.get(k, "") for k in ("id", "text", "pos", "filler", "where")}]
+        cases = [{k: c.get(k, "") for k in ("id", "text", "pos", "filler", "where", "decision", "families")}]
     else:
         cases, g, d = core.gen_cases(SPEC_DIR, "TypeGen.tla", "TypeGen.cfg", "typegen", workers=4)
         for i, c in enumerate(cases):
@@ -26,14 +26,17 @@ def check(tier, seed, replay=None):
             cs, g2, d2 = core.gen_cases(expand_mod.SPEC_DIR, "Expand.tla", f"Gen_{fam}.cfg", "exp" + fam, workers=4)
             k = 1 if tier == "thorough" else 4
             for i, c in enumerate(cs[seed % k::k]):
-                extra.append({"id": f"V{fam}{i}", "text": c["prog"], "pos": "valid program", "filler": "", "where": "valid"})
+                extra.append({"id": f"V{fam}{i}", "text": c["prog"], "pos": "valid program", "filler": "", "where": "valid",
+                              "decision": [], "families": ["x_", "y_", "z_", "f_"]})
         cases += extra
     events = core.rv_parallel("typecheck", cases, prop, procs=8)
     v = core.validate(SPEC_DIR, "TypeTrace.tla", "TypeTrace.cfg", events, prop, prop, chunks=8)
     byid = {e["id"]: e for e in events}
     for r in v.rejects:
         ev = byid.get(r[2], {})
-        o.violation(f"{r[3]}: position `{ev.get('pos')}` filled with `{ev.get('filler')}`", {k: ev.get(k) for k in ("id", "text", "pos", "filler", "where")},
+        known_class = "type-class error" not in r[3]
+        sig = r[3] if known_class else f"{r[3]}: position `{ev.get('pos')}` filled with `{ev.get('filler')}`"
+        o.violation(sig, {k: ev.get(k) for k in ("id", "text", "pos", "filler", "where", "decision", "families")},
                     f"{r[3]}\n  position `{ev.get('pos')}` filler `{ev.get('filler')}`: {ev.get('tr', {}).get('text', '')}")
     acc = sum(1 for s in v.stats if s[2] == "accepted")
     rej = sum(1 for s in v.stats if s[2] == "rejected")
